@@ -32,6 +32,12 @@ def plan(tier, seed):
                 regs.append('c04::I2I<%s, %s, %d>::reg("%s:%d|%s:%d")' % (sc(s, se), sc(dd, de), route, short(s), se, short(dd), de))
     for s, dd, se, de in [(S32, S64, -2, -6), (S64, S32, -6, -2), (S16, S32, 0, -3), (U32, U64, -4, -4), (S64, S64, 3, -5), (U8, S32, 2, 0)]:
         regs.append('c04::I2I<%s, %s, 0>::reg("r10|%s:%d|%s:%d")' % (sc(s, se, 10), sc(dd, de, 10), short(s), se, short(dd), de))
+    # radix 10 with 64-bit reps and gaps of 10..18 decimal digits (the factor 10^gap exceeds 32 bits), and built-in <-> radix 10
+    for s, dd, se, de in [(S64, S64, 0, -12), (S64, S64, -12, 0), (S64, S32, -15, -2), (U64, U64, -18, 0), (S64, S64, -3, -17), (S32, S64, 0, -14), (S64, S64, 5, -8)]:
+        regs.append('c04::I2I<%s, %s, 0>::reg("r10|%s:%d|%s:%d")' % (sc(s, se, 10), sc(dd, de, 10), short(s), se, short(dd), de))
+    for b, r, e in [(S64, S64, -12), (S32, S64, -15), (U64, U64, -10), (S64, S64, 3), (S8, S64, -16)]:
+        regs.append('c04::I2I<%s, %s, 0>::reg("r10|builtin_%s|%s:%d")' % (b, sc(r, e, 10), short(b), short(r), e))
+        regs.append('c04::I2I<%s, %s, 0>::reg("r10|%s:%d|builtin_%s")' % (sc(r, e, 10), b, short(r), e, short(b)))
     # cross-radix conversions, every sign combination of the two exponents
     k = 0
     for s, dd in [(S32, S32), (S64, S32), (S16, S32), (U32, U64), (S8, S16), (S32, S64)]:
@@ -51,6 +57,12 @@ def plan(tier, seed):
         for r, e in ((S8, -4), (U8, -8), (S16, -8), (S32, -16), (U32, -32), (S32, 4), (S64, -32), (U64, -10), (S64, -70), (S32, 70), (S16, -30)):
             regs.append('c04::F2I<%s, %s>::reg("%s|%s:%d")' % (f, sc(r, e), fl, short(r), e))
             regs.append('c04::I2F<%s, %s>::reg("%s:%d|%s")' % (sc(r, e), f, short(r), e, fl))
+    # floating point <-> scaled_integer over elastic_integer reps (top halves of unsigned ranges, storage-word boundaries)
+    for f, fl in FLOATS:
+        for d, n, e in [(64, 'unsigned', -4), (64, 'unsigned', 0), (63, 'int', -10), (32, 'unsigned', -8), (31, 'int', 0), (20, 'int', -12), (40, 'unsigned', 6), (100, 'int', -50)]:
+            t = 'cnl::elastic_scaled_integer<%d, cnl::power<%d>, %s>' % (d, e, n)
+            regs.append('c04::F2I<%s, %s>::reg("%s|elastic%d_%s:%d")' % (f, t, fl, d, short(n), e))
+            regs.append('c04::I2F<%s, %s>::reg("elastic%d_%s:%d|%s")' % (t, f, d, short(n), e, fl))
     # inverses over nested wrappers
     for t, tl in [(sc(S32, -8), 'scaled_int'), ('cnl::elastic_integer<20>', 'elastic20'), ('cnl::overflow_integer<int, cnl::saturated_overflow_tag>', 'overflow_sat'),
                   ('cnl::rounding_integer<long, cnl::nearest_rounding_tag>', 'rounding_long'), ('cnl::wide_integer<200>', 'wide200'),
